@@ -407,7 +407,7 @@ func genC04(t *rapid.T) *Case {
 			u := genTopic(t)
 			pol := pick(t, []string{"foo", "roundrobin", "first", "random", "", "single", "foo"}, "tpol")
 			m := genMatch(t)
-			for j := 0; j < 2+uni(t, 2, "nreg"); j++ {
+			for j := 0; j < 2+uni(t, 3, "nreg"); j++ {
 				op := Op{K: "register", S: uni(t, nreal, "trs"), URI: u, Mode: m}
 				if pol != "" {
 					op.Opts = append(op.Opts, KV{"invoke", VStr(pol)})
@@ -417,12 +417,33 @@ func genC04(t *rapid.T) *Case {
 				}
 				pre = append(pre, op)
 			}
-			for j := 0; j < 1+uni(t, 3, "ncall"); j++ {
+			var registrants []int
+			for _, o := range pre {
+				if o.K == "register" && o.URI == u {
+					registrants = append(registrants, o.S)
+				}
+			}
+			for j := 0; j < 1+uni(t, 2*len(registrants)+1, "ncall"); j++ {
 				op := Op{K: "call", S: uni(t, nreal, "tcs"), URI: u, Args: genArgs(t, valOpts{})}
 				if pct(t, 40, "thost2") {
 					op.Opts = genHostileOpts(t, native(op.S), 2)
 				}
 				pre = append(pre, op)
+			}
+			if pct(t, 50, "tleave") && len(registrants) > 0 {
+				// one of the callees goes away in the middle of the rotation, then more calls
+				l := pick(t, registrants, "tleaver")
+				switch uni(t, 3, "tleavehow") {
+				case 0:
+					pre = append(pre, Op{K: "unregister", S: l, Ref: "reg:-1:-1"})
+				case 1:
+					pre = append(pre, Op{K: "goodbye", S: l})
+				default:
+					pre = append(pre, Op{K: "drop", S: l})
+				}
+				for j := 0; j < 1+uni(t, 3, "ncall2"); j++ {
+					pre = append(pre, Op{K: "call", S: uni(t, nreal, "tcs2"), URI: u, Args: genArgs(t, valOpts{})})
+				}
 			}
 		case 1:
 			u := genTopic(t)
